@@ -277,3 +277,12 @@ def install_node_protocol(H: PassHarness):
         return NotImplemented
 
     ip.isinstance_hook = isinstance_hook
+    prev_truth = ip.truth
+
+    def truth(v, node_=None):
+        # Expr.__bool__ is True for every expression except Zero (Zero.__bool__ is False)
+        if isinstance(v, T):
+            return not (v.tags.get("ufl_class") == "Zero" or ("ufl_class" not in v.tags and v.is_zero_literal))
+        return prev_truth(v, node_)
+
+    ip.truth = truth
